@@ -198,18 +198,36 @@ func reportProblems(format string, ls []listed, tasks map[string]*mon.AuditJSON)
 	return ps
 }
 
-func convert(cli, dir, auditFile string) (map[string]string, error) {
+func convert(cli, dir, auditFile string, stale bool) (map[string]string, error) {
 	out := map[string]string{}
 	for _, f := range []struct{ cmd, ext string }{{"audit2html", "html"}, {"audit2tex", "tex"}, {"audit2bash", "sh"}} {
+		if stale {
+			// an older, longer report of the same name is already there (the workflow was simplified and converted again)
+			old := strings.Repeat("<tr><td>stale_task</td><td>echo stale report line from an earlier conversion</td></tr>\n# stale_task\necho \"stale > stale.txt\n", 3000)
+			os.WriteFile(filepath.Join(dir, strings.Replace(auditFile, ".audit.json", ".audit."+f.ext, 1)), []byte(old), 0644)
+		}
 		cmd := exec.Command(cli, f.cmd, auditFile)
 		cmd.Dir = dir
 		b, err := cmd.CombinedOutput()
 		if err != nil {
 			return nil, fmt.Errorf("%s failed: %v: %s", f.cmd, err, clip(string(b), 400))
 		}
-		res, err := os.ReadFile(filepath.Join(dir, strings.Replace(auditFile, ".audit.json", ".audit."+f.ext, 1)))
+		outPath := filepath.Join(dir, strings.Replace(auditFile, ".audit.json", ".audit."+f.ext, 1))
+		res, err := os.ReadFile(outPath)
 		if err != nil {
 			return nil, fmt.Errorf("%s wrote no output: %v", f.cmd, err)
+		}
+		if stale {
+			// the same conversion into a fresh file must give a report of the same length (the order in which a record's
+			// parameters and tags are printed is not fixed, so the bytes themselves may differ)
+			os.Remove(outPath)
+			cmd2 := exec.Command(cli, f.cmd, auditFile)
+			cmd2.Dir = dir
+			cmd2.CombinedOutput()
+			fresh, _ := os.ReadFile(outPath)
+			if len(fresh) != len(res) {
+				return nil, fmt.Errorf("STALE: %s: the report written over an existing longer file of the same name (%d bytes) differs from the report written to a fresh file (%d bytes)", f.cmd, len(res), len(fresh))
+			}
 		}
 		out[f.ext] = string(res)
 	}
@@ -373,7 +391,7 @@ func c20(args []string) {
 	if err != nil {
 		c.Broken(err.Error())
 	}
-	c.Rule("(a) audit files of real runs of flat-path workflows built from plain shell commands (cat, tr, sed, rev, sort, wc, printf / awk with percent signs; chains of depth 1-5, diamonds with a shared ancestor - also one whose branches start at the two outputs of one task -, sub-stream joins, parameters; also produced by resumed runs: RunTo a prefix, then Run) and (b) audit trees generated directly (1-60 records, DAG-shaped sharing, equal / whole-second / zero start times, parameters and tags with underscores, source-file pseudo records) are converted with the CLI built from /repo/cmd/scipipe (audit2html, audit2tex, audit2bash); the outputs are parsed back and compared with the record flattened by id: every task (non-empty process name) listed exactly once, in non-decreasing start-time order, with its command, parameters and tags as the format prints them; for (a) the generated Bash script is executed in a directory holding only the source files and must re-create the file byte-identically. distinct_nontrivial = distinct audit trees with >= 2 tasks whose three conversions were all compared")
+	c.Rule("(a) audit files of real runs of flat-path workflows built from plain shell commands (cat, tr, sed, rev, sort, wc, printf / awk with percent signs; chains of depth 1-5, diamonds with a shared ancestor - also one whose branches start at the two outputs of one task -, sub-stream joins, parameters; also produced by resumed runs: RunTo a prefix, then Run) and (b) audit trees generated directly (1-60 records, DAG-shaped sharing, equal / whole-second / zero start times, parameters and tags with underscores, source-file pseudo records) are converted with the CLI built from /repo/cmd/scipipe (audit2html, audit2tex, audit2bash; in every second case a longer stale report of the same name already exists); the outputs are parsed back and compared with the record flattened by id: every task (non-empty process name) listed exactly once, in non-decreasing start-time order, with its command, parameters and tags as the format prints them; for (a) the generated Bash script is executed in a directory holding only the source files and must re-create the file byte-identically. distinct_nontrivial = distinct audit trees with >= 2 tasks whose three conversions were all compared")
 	c.Assume("source-file pseudo records (empty process name) are not tasks and are not judged", "TeX: '_' is printed as '\\_' and parameters as k=v; Bash: '../' is removed from commands by the template")
 	rng := c.Rand("c20")
 	type job struct {
@@ -470,9 +488,13 @@ func c20(args []string) {
 				}
 			}
 		}
-		outs, err := convert(cli, dir, auditFile)
+		outs, err := convert(cli, dir, auditFile, i%2 == 0)
 		if err != nil {
-			c.Violation("conversion-failed", err.Error(), desc)
+			sig := "conversion-failed"
+			if strings.HasPrefix(err.Error(), "STALE:") {
+				sig = "report-keeps-content-of-an-older-file"
+			}
+			c.Violation(sig, err.Error(), desc)
 			return
 		}
 		var ps []mon.Problem
